@@ -7,6 +7,8 @@ VERIF = os.path.dirname(os.path.dirname(os.path.abspath(__file__)))
 # development only: a scratch copy of the Lean project / of the harness (pointing at a scratch worktree of /repo)
 LEAN = os.environ.get("VERIF_LEAN_DIR") or os.path.join(VERIF, "lean")
 HARNESS = os.environ.get("VERIF_HARNESS_DIR") or os.path.join(VERIF, "harness")
+# development only (tools/seed_eval.py --iso): the tree the scratch harness is built against, instead of /repo
+REPO = os.environ.get("VERIF_REPO_DIR") or "/repo"
 WORK = os.path.join(VERIF, "work")
 REPLAYS = os.path.join(VERIF, "replays")
 EVIDENCE = os.path.join(VERIF, "evidence")
@@ -35,7 +37,7 @@ def build_harness(profiles=("release", "relassert")):
     lock = os.path.join(HARNESS, "Cargo.lock")
     if not os.path.exists(lock):
         import shutil
-        shutil.copy("/repo/Cargo.lock", lock)
+        shutil.copy(os.path.join(REPO, "Cargo.lock"), lock)
     for p in profiles:
         cmd = ["cargo", "build", "--offline", "--quiet"] + (["--release"] if p == "release" else ["--profile", p])
         r = subprocess.run(cmd, cwd=HARNESS, env=ENV, capture_output=True, text=True)
@@ -92,7 +94,8 @@ SRC_VIEWS = {
 SRC_IGNORED = {"plot.rs", "test_data.rs"}
 
 
-def source_hashes(root="/repo/src"):
+def source_hashes(root=None):
+    root = root or os.path.join(REPO, "src")
     out = {}
     for d, _, files in os.walk(root):
         for f in files:
